@@ -395,6 +395,10 @@ def run (ins outs : List String) : Verdict :=
       { agree := m == c, specOk := specEncoding specs os == c,
         tag := (if (encCands specs os).isEmpty then "~E:0" else s!"E:{(encCands specs os).length.min 3}"), model := encField m }
     | _, _, _ => .bad "E fields"
+  | ["T", _lines], ["ok"] =>
+    -- a TEST, not a theorem: the other exported parsers of header.go (ParseAccept2, ParseList,
+    -- ParseValueAndParams, ParseTime, Copy) returned on these header lines without panicking
+    { agree := true, specOk := true, tag := "~test:totality", model := "ok" }
   | _, [ "PANIC", msg ] => { agree := false, specOk := false, tag := "panic", model := "no-panic expected; impl: " ++ msg }
   | _, _ => .bad "C07 stream"
 
